@@ -3,8 +3,12 @@
 package h
 
 import (
+	"encoding/json"
 	"fmt"
+	"os"
+	"runtime"
 	"strings"
+	"sync"
 	"time"
 
 	"github.com/sdcio/data-server/pkg/verifrt"
@@ -15,6 +19,9 @@ type schedScenario struct {
 	Name string
 	Sc   verifrt.Scenario
 }
+
+// scenarioPB overrides the preemption bound for single scenarios (by name).
+var scenarioPB = map[string]int{}
 
 type schedTotals struct {
 	Executions, Points, Divergences, Horizons int
@@ -31,7 +38,11 @@ func exploreScenarios(rep *Reporter, scs []schedScenario, maxPB, maxDB int, maxS
 		sc := sc
 		// iterate the bounds: the first counterexample has the fewest preemptions / deviations
 		seenViol := map[string]bool{}
-		st := verifrt.Explore(verifrt.ExploreOpts{PreemptionBound: maxPB, DeviationBound: maxDB, MaxSteps: maxSteps, Deadline: deadline}, sc.Sc, func(x *verifrt.Execution) {
+		scPB := maxPB
+		if b, ok := scenarioPB[sc.Name]; ok {
+			scPB = b
+		}
+		st := verifrt.Explore(verifrt.ExploreOpts{PreemptionBound: scPB, DeviationBound: maxDB, MaxSteps: maxSteps, Deadline: deadline}, sc.Sc, func(x *verifrt.Execution) {
 			for _, v := range x.Violations {
 				sig := sigOf(sc.Name, v, x)
 				if seenViol[sig] && rep.Count() > 2000 {
@@ -116,4 +127,106 @@ func crashSiteOf(stack string) string {
 		}
 	}
 	return "unknown"
+}
+
+// shardStdout is where a shard worker writes its result (its own stdout is silenced: the implementation prints).
+var shardStdout *os.File
+
+type shardResult struct {
+	Tot        *schedTotals
+	Violations []*Violation
+}
+
+// exploreSharded distributes the scenarios round-robin over worker processes (the cooperative scheduler is a
+// process-wide singleton) and merges their results. In a worker (`<check> shard i n`) it explores its share and
+// prints the result; the returned code is then the process exit code and tot is nil.
+func exploreSharded(rep *Reporter, id string, scs []schedScenario, pb, db, maxSteps int, budget time.Duration, sigOf func(scn string, v string, x *verifrt.Execution) string) (*schedTotals, int) {
+	if len(os.Args) > 4 && os.Args[2] == "shard" {
+		var i, n int
+		fmt.Sscan(os.Args[3], &i)
+		fmt.Sscan(os.Args[4], &n)
+		shardStdout = os.Stdout
+		if null, err := os.OpenFile(os.DevNull, os.O_WRONLY, 0); err == nil {
+			os.Stdout = null
+		}
+		var mine []schedScenario
+		for j, s := range scs {
+			if j%n == i {
+				mine = append(mine, s)
+			}
+		}
+		srep := &Reporter{Property: id, bySig: map[string][]*Violation{}}
+		tot := exploreScenarios(srep, mine, pb, db, maxSteps, time.Now().Add(budget), sigOf)
+		var vs []*Violation
+		for _, l := range srep.bySig {
+			for _, v := range l {
+				if v != nil {
+					vs = append(vs, v)
+				}
+			}
+		}
+		b, err := json.Marshal(shardResult{Tot: tot, Violations: vs})
+		if err != nil {
+			fmt.Fprintln(os.Stderr, err)
+			os.Exit(2)
+		}
+		shardStdout.Write(append(b, '\n'))
+		os.Exit(0)
+	}
+	n := shardCount()
+	if n > len(scs) {
+		n = len(scs)
+	}
+	outs := make([]shardResult, n)
+	var wg sync.WaitGroup
+	var mu sync.Mutex
+	failed := false
+	for i := 0; i < n; i++ {
+		wg.Add(1)
+		go func(i int) {
+			defer wg.Done()
+			if err := runShard(id, fmt.Sprint(i), fmt.Sprint(n), &outs[i]); err != nil {
+				fmt.Fprintln(os.Stderr, err)
+				mu.Lock()
+				failed = true
+				mu.Unlock()
+			}
+		}(i)
+	}
+	wg.Wait()
+	if failed {
+		return nil, 2
+	}
+	tot := &schedTotals{Outcomes: map[string]int{}, PB: pb, DB: db}
+	for _, o := range outs {
+		for _, v := range o.Violations {
+			rep.Add(v)
+		}
+		if o.Tot == nil {
+			continue
+		}
+		tot.Executions += o.Tot.Executions
+		tot.Points += o.Tot.Points
+		tot.Divergences += o.Tot.Divergences
+		tot.Horizons += o.Tot.Horizons
+		tot.Capped = tot.Capped || o.Tot.Capped
+		for k, c := range o.Tot.Outcomes {
+			tot.Outcomes[k] += c
+		}
+		if len(tot.Samples) < 8 {
+			tot.Samples = append(tot.Samples, o.Tot.Samples...)
+		}
+	}
+	return tot, 0
+}
+
+func shardCount() int {
+	n := runtime.NumCPU()
+	if n > 16 {
+		n = 16
+	}
+	if n < 1 {
+		n = 1
+	}
+	return n
 }
